@@ -181,7 +181,9 @@ def rule_e3(chk: Check) -> None:
         fi = chk.proj.cls(key).methods.get("data_received")
         if fi is None:
             continue
-        g = build_cfg(chk.proj, fi)
+        from ..cfg import Builder, inline_local
+
+        g = Builder(chk.proj, inline_local, 3).build(fi)
         caps = [n for n in g.nodes if n.kind == "test" and n.ast is not None and any(isinstance(x, ast.Name) and x.id == "MAX_RESPONSE_BODY_SIZE" for x in walk(n.ast))]
         closes = {n.id for n in g.nodes if n.ast is not None and n.kind == "stmt" and any(method_call(c) and method_call(c)[1] in ("close", "abort") and "transport" in norm(method_call(c)[0]) for c in calls(n.ast))}
         if not chk.require("E3", fi.key, "size-cap comparison", len(caps), 1, "the received data is never compared with the size cap: a server that keeps sending exhausts memory"):
